@@ -56,3 +56,71 @@ Theorem C04_holds_native : forall s0 ops i j t1 t2,
   t_from t2 = t_from t1 -> t_nonce t2 = t_nonce t1 -> False.
 Proof. exact nonce_used_once_native. Qed.
 Print Assumptions C04_holds_native.
+
+(* ---- the EVM nonce contract replaced by the CHECKED boolean (EffectCheck.v).  The correspondence
+   check evaluates [check_effects c] on every recorded history c; "it returned []" is
+   [effects_hold senders state0 (c_ops c)] (check_effects_sound).  The operations after the
+   InitChain, as a sop list: [InvEvmClosed.sops_of]; [no_init]: no further InitChain. *)
+From Rigo Require AppRun EffectCheck InvEvmClosed.
+
+(* the history theorem under the weaker per-step hypothesis [hist_ok']: the EVM nonce contract is
+   demanded of the SUCCESSFUL EVM-path deliveries only (a failing delivery changes no nonce
+   whatever effect record it carries) *)
+Theorem C04_holds' : forall s0 ops i j t1 t2,
+  run_ok (InvEvmClosed.hist_ok' (t_from t1)) s0 ops -> (i < j)%nat ->
+  ops !! i = Some (SDeliver t1) -> ops !! j = Some (SDeliver t2) ->
+  delivered (srun s0 (take i ops)) t1 -> delivered (srun s0 (take j ops)) t2 ->
+  t_from t2 = t_from t1 -> t_nonce t2 = t_nonce t1 -> False.
+Proof. exact InvEvmClosed.nonce_used_once'. Qed.
+Print Assumptions C04_holds'.
+
+(* in a history on which the check passed, for a sender the check watches, with no successful
+   transaction of that sender carrying the last nonce 2^64 - 1 ([no_wrap], the second clause of
+   [hist_ok]): the per-step hypothesis holds along the run ... *)
+Theorem C04_checked_run_ok' : forall g rest senders a,
+  InvEvmClosed.no_init rest ->
+  EffectCheck.effects_hold senders AppRun.state0 (AppRun.AInit g :: rest) ->
+  a ∈ senders ->
+  run_ok (InvEvmClosed.no_wrap a) (init_chain g) (InvEvmClosed.sops_of rest) ->
+  run_ok (InvEvmClosed.hist_ok' a) (init_chain g) (InvEvmClosed.sops_of rest).
+Proof. exact InvEvmClosed.C04_checked_run_ok'. Qed.
+Print Assumptions C04_checked_run_ok'.
+
+(* ... hence no two deliveries with its address and the same nonce both succeed *)
+Theorem C04_checked : forall g rest senders i j t1 t2,
+  InvEvmClosed.no_init rest ->
+  EffectCheck.effects_hold senders AppRun.state0 (AppRun.AInit g :: rest) ->
+  t_from t1 ∈ senders ->
+  run_ok (InvEvmClosed.no_wrap (t_from t1)) (init_chain g) (InvEvmClosed.sops_of rest) ->
+  (i < j)%nat ->
+  InvEvmClosed.sops_of rest !! i = Some (SDeliver t1) -> InvEvmClosed.sops_of rest !! j = Some (SDeliver t2) ->
+  delivered (srun (init_chain g) (take i (InvEvmClosed.sops_of rest))) t1 ->
+  delivered (srun (init_chain g) (take j (InvEvmClosed.sops_of rest))) t2 ->
+  t_from t2 = t_from t1 -> t_nonce t2 = t_nonce t1 -> False.
+Proof. exact InvEvmClosed.C04_checked. Qed.
+Print Assumptions C04_checked.
+
+(* the same from the verdict on a recorded case: the check watches every sender of the case *)
+Theorem C04_checked_case : forall c g rest i j t1 t2,
+  AppRun.c_ops c = AppRun.AInit g :: rest -> InvEvmClosed.no_init rest ->
+  EffectCheck.check_effects c = [] ->
+  run_ok (InvEvmClosed.no_wrap (t_from t1)) (init_chain g) (InvEvmClosed.sops_of rest) ->
+  (i < j)%nat ->
+  InvEvmClosed.sops_of rest !! i = Some (SDeliver t1) -> InvEvmClosed.sops_of rest !! j = Some (SDeliver t2) ->
+  delivered (srun (init_chain g) (take i (InvEvmClosed.sops_of rest))) t1 ->
+  delivered (srun (init_chain g) (take j (InvEvmClosed.sops_of rest))) t2 ->
+  t_from t2 = t_from t1 -> t_nonce t2 = t_nonce t1 -> False.
+Proof. exact InvEvmClosed.C04_checked_case. Qed.
+Print Assumptions C04_checked_case.
+
+(* [hist_ok] itself (the hypothesis of C04_holds) does NOT follow from the check: it asks for the
+   nonce contract of failing EVM-path deliveries too, which the check does not look at.  Witness: a
+   contract transaction with a stale nonce whose effect record disagrees with its nonce *)
+Theorem C04_checked_hist_ok_refuted : exists g rest senders t1,
+  InvEvmClosed.no_init rest /\
+  EffectCheck.effects_hold senders AppRun.state0 (AppRun.AInit g :: rest) /\
+  t_from t1 ∈ senders /\
+  run_ok (InvEvmClosed.no_wrap (t_from t1)) (init_chain g) (InvEvmClosed.sops_of rest) /\
+  ~ run_ok (hist_ok (t_from t1)) (init_chain g) (InvEvmClosed.sops_of rest).
+Proof. exact InvEvmClosed.C04_checked_hist_ok_refuted. Qed.
+Print Assumptions C04_checked_hist_ok_refuted.
